@@ -12,6 +12,7 @@
      in_int64 z           -2^63 <= z <= 2^63 - 1
    34 is the double quote, 39 the single quote, 47 the slash, 61 the equals sign. *)
 From Coq Require Import List NArith ZArith Bool Permutation.
+From JV Require Import Msg CliModel CliLemmas CliInv CliProofs CliHist CliSend CliFed CliNoStop CliSendLog SameResultsCli SameResultsBridge.
 From JV Require Import Bytes QStr Query QueryProofs HttpChan HttpChanProofs SameResults.
 Import ListNotations.
 Local Open Scope N_scope.
@@ -205,25 +206,142 @@ Theorem c19_recv_stream_is_permutation : forall tr s,
 Proof. exact recv_is_permutation_of_direct. Qed.
 Print Assumptions c19_recv_stream_is_permutation.
 
-(* PARTIAL.  Full statement (DESIGN section 8, c19_same_results): "a jrpc2.Client whose transport is
-   jhttp.Channel against a jhttp.Bridge returns, for every call/notify/batch workload and every order in
-   which the HTTP responses arrive, what it returns over a direct connection".
-   Proved: for ANY client -- given as the function from the reply stream its Recv yields to the results
-   its operations return -- whose results are the same for every permutation of a reply stream that
-   answers each request at most once (premise `order_irrelevant`, the shape of c04_order_irrelevant),
-   the results over jhttp.Channel equal the results over the direct stream.
-   Missing: the premise has to be instantiated with the client model's theorem c04_order_irrelevant
-   (coq/cli, being proved), and the replies themselves have to be identified with the Bridge model's
-   (coq/http/Bridge.v, C18) per-request responses.  The end-to-end comparison is done by the harness
-   families hc:bridge and hc:bridgerace. *)
-Theorem c19_same_results_partial :
+(* SAME RESULTS ("A Client over jhttp.Channel against a Bridge observes the same results as over a direct
+   connection"), for the client model of C04/C05 (coq/cli/CliModel.v), the channel model above and the Bridge model
+   of C18 (coq/http/Bridge.v).  Proofs: http/SameResultsCli.v, http/SameResultsBridge.v, cli/CliSendLog.v,
+   cli/CliNoStop.v.  Vocabulary:
+     traces_to c tr s        s is the state of the client model after the label sequence tr (C04)
+     feeds tr                the records the transport handed to the client's reader along tr (LFeed labels), in order
+     body j                  what parseJSON makes of the body of the HTTP response of round trip j
+     feed_of body (j, r)     what Recv hands to the client for round trip j whose cli.Do returned r: the parsed body
+                             for status 200, a transport error otherwise (channel.go Recv)
+     http_feeds body htr     = map (feed_of body) (recv_stream htr): in the order Recv yielded the responses
+     direct_feeds body htr   = map (feed_of body) (direct_stream htr): the same reply records in request order
+     sendlog (init_of c) tr  the operations whose Send put a record on the transport along tr, in order (ghost)
+     sends_answered_by_bridge c tr s htr body
+                             there are as many entries in the send log as HSend labels in htr; round trip j carried the
+                             request record of the j-th entry (its members as req_members put them on the wire, read by
+                             the Bridge as requests without a deferred error) and its status and parsed body are those
+                             the Bridge model computes for it (serve_internal, any inner client+server with inner_ok,
+                             any value of the shared id counter)
+     op_ids s n              the wire ids of the requests of operation n
+     not_close l             l is not the start of a Close operation.
+   THE THEOREM: htr any run of the channel (open, all round trips done, responses handed to Recv in any order); tr1 any
+   run of the client over it (any hooks, any schedule of callers, reader, delivery goroutines, watchers); tr2 any run
+   of the client fed the same reply records in request order; no Close in either.  An operation that carried the same
+   ids in both runs and whose context did not end returned the same value in both, if it returned in both. *)
+Theorem c19_same_results : forall body htr hs c1 tr1 s1 c2 tr2 s2,
+  HttpChan.run HttpChan.init htr = Some hs -> ~ In HClose htr -> forallb is_done (gs hs) = true ->
+  traces_to c1 tr1 s1 -> traces_to c2 tr2 s2 ->
+  feeds tr1 = http_feeds body htr -> feeds tr2 = direct_feeds body htr ->
+  sends_answered_by_bridge c1 tr1 s1 htr body ->
+  Forall not_close tr1 -> Forall not_close tr2 ->
+  forall n o1 o2, op_at s1 n = Some o1 -> op_at s2 n = Some o2 ->
+    o_ctx o1 = None -> o_ctx o2 = None ->
+    op_ids s1 n = op_ids s2 n ->
+    (forall r1 r2, In (ORet n (RetCall r1)) (hist s1) -> In (ORet n (RetCall r2)) (hist s2) -> r1 = r2)
+    /\ (forall rs1 rs2, In (ORet n (RetBatch rs1)) (hist s1) -> In (ORet n (RetBatch rs2)) (hist s2) -> rs1 = rs2).
+Proof. exact same_results. Qed.
+Print Assumptions c19_same_results.
+
+(* ... with Close operations allowed in either run, for the operations of runs that have not stopped
+   (the premise of c04_order_irrelevant) *)
+Theorem c19_same_results_if_not_stopped : forall body htr hs c1 tr1 s1 c2 tr2 s2,
+  HttpChan.run HttpChan.init htr = Some hs -> ~ In HClose htr -> forallb is_done (gs hs) = true ->
+  traces_to c1 tr1 s1 -> traces_to c2 tr2 s2 ->
+  feeds tr1 = http_feeds body htr -> feeds tr2 = direct_feeds body htr ->
+  sends_answered_by_bridge c1 tr1 s1 htr body ->
+  forall n o1 o2, op_at s1 n = Some o1 -> op_at s2 n = Some o2 ->
+    o_ctx o1 = None -> o_ctx o2 = None -> err s1 = None -> err s2 = None ->
+    op_ids s1 n = op_ids s2 n ->
+    (forall r1 r2, In (ORet n (RetCall r1)) (hist s1) -> In (ORet n (RetCall r2)) (hist s2) -> r1 = r2)
+    /\ (forall rs1 rs2, In (ORet n (RetBatch rs1)) (hist s1) -> In (ORet n (RetBatch rs2)) (hist s2) -> rs1 = rs2).
+Proof. exact same_results_if_not_stopped. Qed.
+Print Assumptions c19_same_results_if_not_stopped.
+
+(* ... against ANY HTTP peer whose reply records answer their own request records
+   ([replies_answer_own_requests s htr body]: there is an injective assignment of round trips to operations of the
+   client such that the reply-shaped members of body j, for a 200, carry exactly the ids of that operation) *)
+Theorem c19_same_results_any_peer : forall body htr hs c1 tr1 s1 c2 tr2 s2,
+  HttpChan.run HttpChan.init htr = Some hs -> ~ In HClose htr -> forallb is_done (gs hs) = true ->
+  traces_to c1 tr1 s1 -> traces_to c2 tr2 s2 ->
+  feeds tr1 = http_feeds body htr -> feeds tr2 = direct_feeds body htr ->
+  replies_answer_own_requests s1 htr body ->
+  forall n o1 o2, op_at s1 n = Some o1 -> op_at s2 n = Some o2 ->
+    o_ctx o1 = None -> o_ctx o2 = None -> err s1 = None -> err s2 = None ->
+    op_ids s1 n = op_ids s2 n ->
+    (forall r1 r2, In (ORet n (RetCall r1)) (hist s1) -> In (ORet n (RetCall r2)) (hist s2) -> r1 = r2)
+    /\ (forall rs1 rs2, In (ORet n (RetBatch rs1)) (hist s1) -> In (ORet n (RetBatch rs2)) (hist s2) -> rs1 = rs2).
+Proof. exact same_results_cli. Qed.
+Print Assumptions c19_same_results_any_peer.
+
+(* The premise `order_irrelevant` of the abstract theorem below, discharged for the client model: two runs, the
+   records fed in the second all occur among those fed in the first (e.g. any permutation, regrouping aside), the
+   first stream answers no id twice ([stream_ids recs]: fixID(id) of every reply-shaped member of every record) *)
+Theorem c19_client_order_irrelevant : forall c1 tr1 s1 c2 tr2 s2,
+  traces_to c1 tr1 s1 -> traces_to c2 tr2 s2 ->
+  (forall ms, In ms (fed tr2) -> In ms (fed tr1)) ->
+  NoDup (stream_ids (fed tr1)) ->
+  forall n o1 o2, op_at s1 n = Some o1 -> op_at s2 n = Some o2 ->
+    o_ctx o1 = None -> o_ctx o2 = None -> err s1 = None -> err s2 = None ->
+    op_ids s1 n = op_ids s2 n ->
+    (forall r1 r2, In (ORet n (RetCall r1)) (hist s1) -> In (ORet n (RetCall r2)) (hist s2) -> r1 = r2)
+    /\ (forall rs1 rs2, In (ORet n (RetBatch rs1)) (hist s1) -> In (ORet n (RetBatch rs2)) (hist s2) -> rs1 = rs2).
+Proof. exact same_results_any_order. Qed.
+Print Assumptions c19_client_order_irrelevant.
+
+(* What the Bridge guarantees (C18 c18_own_responses, composed with the client's id discipline): every reply record
+   answers exactly the ids of the request record its round trip carried, each record being one operation's *)
+Theorem c19_replies_answer_own_requests : forall c tr s htr body,
+  traces_to c tr s -> sends_answered_by_bridge c tr s htr body -> replies_answer_own_requests s htr body.
+Proof. exact sends_answer_own_requests. Qed.
+Print Assumptions c19_replies_answer_own_requests.
+
+(* ... hence no id is answered twice in the stream Recv yields *)
+Theorem c19_reply_ids_distinct : forall c tr s htr hs body,
+  traces_to c tr s ->
+  HttpChan.run HttpChan.init htr = Some hs -> ~ In HClose htr -> forallb is_done (gs hs) = true ->
+  replies_answer_own_requests s htr body ->
+  NoDup (stream_ids (recs_of (http_feeds body htr))).
+Proof. exact own_requests_nodup. Qed.
+Print Assumptions c19_reply_ids_distinct.
+
+(* the Bridge answers 200 with at least one response object or 204 with none: Recv never reports a transport error *)
+Theorem c19_bridge_status : forall inner next req st body,
+  bridge_answer inner next req = Some (st, body) ->
+  (st = 200%Z /\ body_msgs body <> []) \/ (st = 204%Z /\ body_msgs body = []).
+Proof. exact bridge_status. Qed.
+Print Assumptions c19_bridge_status.
+
+(* an operation of the client calls Send at most once, and what it sent is its complete request record
+   (one id allocated per call; [presend o = false]: it is past cli.send) *)
+Theorem c19_send_once : forall c tr s, traces_to c tr s ->
+  NoDup (sendlog (init_of c) tr)
+  /\ forall n, In n (sendlog (init_of c) tr) ->
+       exists o, op_at s n = Some o /\ presend o = false /\ length (o_slots o) = nn (o_specs o).
+Proof. exact sendlog_spec. Qed.
+Print Assumptions c19_send_once.
+
+(* a client that is never closed and is handed only parsed JSON records does not stop
+   ([good_label l]: l is not the start of a Close and, if it is a record from the transport, the record is
+   FMsg (InMsgs _ _)) *)
+Theorem c19_never_closed_never_stops : forall c tr s,
+  traces_to c tr s -> Forall good_label tr -> err s = None.
+Proof. exact never_closed_never_stops. Qed.
+Print Assumptions c19_never_closed_never_stops.
+
+(* The channel-level half for an ABSTRACT client: for ANY function from the reply stream its Recv yields to the
+   results its operations return that is invariant under permutations of a stream answering each request at most
+   once, the results over jhttp.Channel equal the results over the direct stream.  (Instantiated for the client
+   model by the theorems above.) *)
+Theorem c19_same_results_abstract :
   forall (outcome : Type) (client_results : list reply -> outcome),
   (forall a b : list reply, NoDup (map fst a) -> Permutation a b -> client_results a = client_results b) ->
   forall tr s,
     run init tr = Some s -> ~ In HClose tr -> forallb is_done (gs s) = true ->
     client_results (recv_stream tr) = client_results (direct_stream tr).
 Proof. exact same_results_given_order_irrelevance. Qed.
-Print Assumptions c19_same_results_partial.
+Print Assumptions c19_same_results_abstract.
 
 (* Without fix F11 (drain loop does not close bodies) the property is false. *)
 Theorem c19_refuted_without_F11 :
